@@ -1725,7 +1725,8 @@ func (c *DefaultCtx) Set(key, val string) {
 }
 
 func (c *DefaultCtx) setCanonical(key, val string) {
-	c.fasthttp.Response.Header.SetCanonical(utils.UnsafeBytes(key), utils.UnsafeBytes(val))
+	// Set, unlike SetCanonical, removes CR and LF from the value
+	c.fasthttp.Response.Header.Set(key, val)
 }
 
 // Subdomains returns a string slice of subdomains in the domain name of the request.
